@@ -3,30 +3,7 @@ import vm
 from common import build, log, tlc, require_ok, run_th, Broken
 LEVEL = "model_checking"
 
-M = 2147483646      # largest accepted literal
-H = 1073741823
-
-
-def boundary_programs():
-    P = []
-
-    def add(name, text):
-        P.append((name, {"files": {"m": text}, "main": "m"}))
-    add("max_plus_5", "x := %d; x := x + 5; y := x" % M)
-    add("max_plus_1_twice", "x := %d; x := x + 1; x := x + 1; x := x + 1; y := x - 1" % M)
-    add("one_plus_max", "x := 1; y := x + %d; z := y + 1; w := z + %d; v := w + 1" % (M, M))
-    add("half_sums", "x := %d; y := x + %d; z := y + %d; w := z + %d" % (H, H, H, H))
-    add("zero_minus", "x := 0; x := x - 1; y := x - %d; z := 5; z := z - %d; w := z" % (M, M))
-    add("max_minus_max", "x := %d; y := x - %d; z := x - %d; x := x + 1; v := x - %d" % (M, M, M - 1, M))
-    add("through_calls", "PROGRAM inc IN a OUT a DO a := a + %d END\nPROGRAM two IN a OUT r DO r := RUN inc WITH a END; r := RUN inc WITH r END END\n"
-        "x := RUN two WITH 3 END; y := RUN two WITH x END; z := RUN inc WITH %d END" % (H, M))
-    add("loop_doubling", "PROGRAM dbl IN a OUT r DO r := a; r := r + %d; r := r + %d END\nx := 1; n := 4; LOOP n DO x := RUN dbl WITH x END END" % (H, H))
-    add("loop_counter_zero", "x := 0; LOOP x DO y := 1 END; x := 1; LOOP x DO x := x - 1; y := y - 1 END")
-    add("big_loop_stop", "x := %d; LOOP x DO y := y + %d; n := n + 1; IF n = 3 THEN GOTO e; y := y + 0 END; e: STOP" % (M, M))
-    add("test_at_max", "x := %d; x := x + 9; IF x = %d THEN GOTO a; y := 1; a: z := x; IF z = 0 THEN GOTO b; w := 1; b: w := w + 1" % (M, M))
-    add("while_from_max", "x := %d; x := x + 1; n := 3; WHILE n != 0 DO x := x + %d; n := n - 1 END; WHILE x != 0 DO x := x - %d END" % (M, H, H))
-    add("sugar_plus_zero", "x := %d; x := x + 0; x := x - 0; y := x + %d" % (M, M))
-    return P
+from vm import boundary_programs, M, H  # shared with the VM family (trace validation only)
 
 
 def run(chk):
